@@ -147,6 +147,7 @@ def run(ctx):
     #      and the same run emits every element as an operation for the real code
     inst = ctx.instance("MC_Codecs", "Codecs", "Codecs_mc.cfg", {"OffsetSize": 4, "Level": level})
     ops = [flat(h[0]) for h in ctx.generate(inst, workers=4, timeout=1200)]
+    ops.sort(key=lambda o: json.dumps(o, sort_keys=True))   # TLC emits in worker order
     if len(ops) < 5000:
         raise ctx_infra("generator produced only %d operations" % len(ops))
     ctx.notes["tlc_enumerated_operations"] = len(ops)
@@ -175,6 +176,7 @@ def run(ctx):
         # index entries with 5-byte offsets (build tag 5BytesOffset): same laws with OffsetSize = 5
         inst5 = ctx.instance("MC_Codecs5", "Codecs", "Codecs_mc.cfg", {"OffsetSize": 5, "Level": 1})
         ops5 = [flat(h[0]) for h in ctx.generate(inst5, workers=4, timeout=1200)]
+        ops5.sort(key=lambda o: json.dumps(o, sort_keys=True))
         ops5 = [o for o in ops5 if o["ev"] == "idx"] + rnd_idx(rng, 3000, 5) + walks(rng, [0, 1, 1024, 1025, 2049])
         rng.shuffle(ops5)
         script5 = os.path.join(ctx.out, "script5.ndjson")
